@@ -866,13 +866,25 @@ impl<'b> InnerBucket<'b> {
 
                     // borrow the parent in a separate scope so we can drop it before we initialize the sibling node
                     let mut parent = parent_ref.borrow_mut();
+                    let parent_is_root = parent.page_id == self.meta.root_page;
                     if let NodeData::Branches(branches) = &mut parent.data {
                         // If there is only one branch in the parent, then we cannot delete this node
                         // since there are no siblings to move the data to.
                         // When we handle the parent, it will get merged with it's siblings or promoted
                         // to root.
                         if branches.len() == 1 {
-                            continue;
+                            // The exception is an empty node below a parent that is not the root:
+                            // it has nothing to move, so it is removed and leaves its parent
+                            // empty, to be removed in turn. Keeping it would hand an empty node
+                            // over to the parent's sibling when the parent is merged.
+                            if node.data.len() > 0 || parent_is_root {
+                                // An emptied branch node that stays as the root's only child
+                                // is about to become the root of an empty bucket: a leaf.
+                                if node.data.len() == 0 && !node.leaf() {
+                                    node.data = NodeData::Leaves(Vec::new());
+                                }
+                                continue;
+                            }
                         }
                         // check if there is any data left to copy
                         // find the child's branch element in the parent node's data
